@@ -752,6 +752,12 @@ def gen_sync_history(rnd, reset, big=False):
         b = "".join(rnd.choice("01") for _ in range(16))
         for i in range(103):
             ups.append(("p", True, ("4", b + "{:016b}".format(i), 32, 32, 64500 + (i % 3))))
+        # ... and of IPv6 prefixes and of router keys (each kind has its own temporary array growing in steps of 100)
+        b6 = "".join(rnd.choice("01") for _ in range(48))
+        for i in range(103 if reset else 0):
+            ups.append(("p", True, ("6", b6 + "{:016b}".format(i) + "0" * 64, 64, 64, 64600 + (i % 3))))
+        for i in range(103):
+            ups.append(("k", True, (300 + i, 1 + i % 2, 5)))
     seen = set()
     ups = [u for u in ups if not (u in seen or seen.add(u))]
     rnd.shuffle(ups)
@@ -1027,8 +1033,8 @@ def run(chk):
     for j in range({"quick": 10, "thorough": 120}[chk.tier]):
         hists.append(("sync-delta-%d" % j, gen_sync_history(rnd, False), None, 40))
         hists.append(("sync-reset-%d" % j, gen_sync_history(rnd, True), None, 40))
-    hists.append(("sync-big-delta", gen_sync_history(rnd, False, big=True), None, 12))
-    hists.append(("sync-big-reset", gen_sync_history(rnd, True, big=True), None, 12))
+    hists.append(("sync-big-delta", gen_sync_history(rnd, False, big=True), None, 16))
+    hists.append(("sync-big-reset", gen_sync_history(rnd, True, big=True), None, 16))
     order = list(range(len(hists)))
     rnd.shuffle(order)
     complete = True
